@@ -30,12 +30,12 @@ type violation struct {
 }
 
 type result struct {
-	Counts     map[string]int64 `json:"counts"`
-	Viol       []violation      `json:"viol"`
-	ViolCount  map[string]int64 `json:"viol_count"` // per class
-	Samples    []interface{}    `json:"samples"`
-	Incomplete bool             `json:"incomplete"` // a time/size cap was hit
-	Notes      []string         `json:"notes,omitempty"`
+	Counts     map[string]int64    `json:"counts"`
+	Viol       []violation         `json:"viol"`
+	ViolCount  map[string]int64    `json:"viol_count"` // per class
+	Samples    []interface{}       `json:"samples"`
+	Incomplete bool                `json:"incomplete"` // a time/size cap was hit
+	Notes      []string            `json:"notes,omitempty"`
 	Sets       map[string][]string `json:"sets,omitempty"` // small string sets, unioned by the parent
 }
 
